@@ -21,4 +21,31 @@ REG = {
         "partial": [],
         "assumptions": ["Model/Layout.lean mirrors pydsdl/_serializable (validated by the layout correspondence on every run)"],
     },
+    "C08": {
+        "module": "Props.C08",
+        "suites": [("layout", (1200, 40000))],
+        "rule": "random composite types (as for C02) x 1-2 base offset sets each (aligned or not, single or multi-valued) x every field position; "
+                "fixed-length arrays of <= 12 elements for element offsets; `_offset_` at a random position and after the last field, and "
+                "`_bit_length_` / `_extent_`, evaluated by the real parser on rendered DSDL text; non-trivial = accepted type of depth >= 1 with a query",
+        "technique": "Lean 4 theorems over the executable offset model + differential correspondence with iterate_fields_with_offsets / DSDL intrinsics",
+        "level_text": "Proved in Lean 4 for all composites, base offset sets and field positions: the offset expressions built by iterate_fields_with_offsets / "
+                      "enumerate_elements_with_offsets denote exactly the specified start positions (previous start + any previous length, padded to the field's alignment), one per field in order; "
+                      "union variants share base + tag; delimited types add the header; `_offset_` after j fields is the set of lengths of everything before and the API offset is its padding; "
+                      "`_bit_length_` expands to the Specification's set. Model tied to the code by correspondence on every run.",
+        "level_note": _NOTE + " That the specified start positions are the positions produced by serialization is the subject of C06 (wire model).",
+        "partial": ["`T._extent_ = T.extent` and the delivery of intrinsic values through the expression evaluator are observed by correspondence only"],
+        "assumptions": ["Model/Layout.lean mirrors the three iterate_fields_with_offsets, enumerate_elements_with_offsets and DataSchemaBuilder.offset"],
+    },
+    "C14": {
+        "module": ["Props.C14Layout"],
+        "suites": [("evolve", (600, 20000))],
+        "rule": "pairs (D, D') of delimited structures/unions with equal extent where one field list is a prefix of the other, nested 1-3 levels deep as field, "
+                "array element, union variant or inside a nested delimited container; all layout queries of C02/C08 on both containers must agree; distinct = distinct pair+queries",
+        "technique": "Lean 4 congruence theorem (a container's layout factors through the erasure of its delimited members) + differential correspondence on container pairs",
+        "level_text": "Proved in Lean 4 for all containers: bit length set expression, alignment, extent and all field offsets of a container are functions of the type with the contents of "
+                      "every nested delimited member erased (only its extent kept), hence unchanged by any same-extent revision at any nesting position. Tied to the code by correspondence on generated container pairs.",
+        "level_note": _NOTE,
+        "partial": ["wire half (data written with one revision read with the other) is covered by the wire group"],
+        "assumptions": ["Model/Layout.lean mirrors DelimitedType.__init__ (bit length set from extent and alignment only)"],
+    },
 }
